@@ -59,12 +59,11 @@ def check_trace(res, tr, tr2):
                         tb=u[2])
         else:
             res.ev("diag_unhandled_failure_" + u[0])
-    for (where, stack) in getattr(tr, "second_firings", ()):
-        # the Deferred's own guard turned the second firing into an AlreadyCalledError; whether or not something
-        # further up swallowed it, a request (or close) Deferred was fired a second time
-        res.violate("fired-twice/second-firing-attempted/" + where, "a Deferred that had already fired was fired again "
-                    "(AlreadyCalledError raised at the firing site): %s" % stack)
-    res.ob("no_second_firing")
+    for (where, stack, did) in getattr(tr, "second_firings", ()):
+        # diagnostic only: the Deferred's own guard turns a second firing into an AlreadyCalledError and the caller
+        # sees one outcome; code that fires defensively and swallows the error is not wrong by this property.  What a
+        # second firing breaks downstream (an aborted flush, a request not written) is judged where it is observable.
+        res.ev("diag_second_firing_attempted_" + where)
     if tr.close_raised:
         res.violate("close-raised", "close() raised %s" % tr.close_raised)
     for rid in getattr(tr, "pending_after_heal", ()):
